@@ -289,3 +289,8 @@ mut("N: subgraph-id bit operations with commuted operands", [
     (PRE, "        self.id.count_ones() == 1", "        1 == self.id.count_ones()"),
     (PRE, "            id |= 1 << edge_id;", "            id = (1 << edge_id) | id;"),
 ], **ALLP)
+
+# ---- C14-i ----
+mut("C14 sector starts from a graph that already lost edge 0", [(SAM, "        .get_full_subgraph_id();\n\n    while !graph.is_empty() {", "        .get_full_subgraph_id()\n        .pop_edge(0);\n\n    while !graph.is_empty() {")], C14="C14-i")
+mut("C14 single-edge branch removes edge 0 instead of the remaining edge", [(SAM, "            let graph_without_edge = graph.pop_edge(edge);\n            (edge, graph_without_edge)", "            let graph_without_edge = graph.pop_edge(0);\n            (edge, graph_without_edge)")], C14="C14-i", C07="C07-a")
+mut("N: sector loop as loop { if empty { break } … }", [(SAM, "    while !graph.is_empty() {\n        // this saves a random variable", "    loop {\n        if graph.is_empty() {\n            break;\n        }\n        // this saves a random variable")], **ALLP)
